@@ -2,8 +2,8 @@
     Only property theorems live here, each closed by [exact] and followed by Print Assumptions. *)
 From Coq Require Import List Arith Bool Permutation.
 Import ListNotations.
-Require Import Fggs.Model.Replace Fggs.Proofs.Replace_spec Fggs.Proofs.Replace_model_spec
-  Fggs.Proofs.Replace_confl.
+Require Import Fggs.Model.Semiring Fggs.Model.Replace Fggs.Proofs.Replace_spec Fggs.Proofs.Replace_model_spec
+  Fggs.Proofs.Replace_confl Fggs.Proofs.Replace_derive_main Fggs.Proofs.Replace_corollaries Fggs.Proofs.Replace_examples.
 
 (** replace_edge on a well-formed host / edge / replacement whose externals are pairwise distinct:
     returns; the result satisfies the replacement specification (exactly the edge removed, rest and
@@ -59,7 +59,53 @@ Theorem C15_confluence : forall L t nx,
 Proof. exact confluence_main. Qed.
 Print Assumptions C15_confluence.
 
+(** hence any two complete orders give graphs isomorphic to the same canonical graph *)
+Theorem C15_confluence_two_orders : forall L t nx l1 l2 s1 s2,
+  wf_dtreeb L t = true -> functionalb L = true ->
+  run l1 (init_state t nx) = Ok s1 -> rs_pending s1 = [] ->
+  run l2 (init_state t nx) = Ok s2 -> rs_pending s2 = [] ->
+  iso_via (rs_graph s1) (rs_nnames s1) (rs_enames s1) (derived_graph t) /\
+  iso_via (rs_graph s2) (rs_nnames s2) (rs_enames s2) (derived_graph t).
+Proof. exact confluence_two_orders. Qed.
+Print Assumptions C15_confluence_two_orders.
+
+(** complete linearisations exist: the depth-first order is one, and it is what derive() does *)
+Theorem C15_derive_is_a_linearisation : forall L t nx,
+  wf_dtreeb L t = true -> functionalb L = true ->
+  exists rs, run (preorder [] t) (init_state t nx) = Ok rs /\ rs_pending rs = [] /\
+             derive_model t nx = (mkDS (rs_graph rs) (rs_next rs) (rs_asst rs), None).
+Proof. exact derive_is_a_linearisation. Qed.
+Print Assumptions C15_derive_is_a_linearisation.
+
 Theorem C15_same_upto_naming_sound : forall g nn en d,
   same_upto_naming g nn en d = true -> iso_via g nn en d.
 Proof. exact same_upto_naming_sound. Qed.
 Print Assumptions C15_same_upto_naming_sound.
+
+(** the names of the derived graph are pairwise distinct (so [iso_via] is a bijection) *)
+Theorem C15_derived_names_distinct : forall L t, wf_dtreeb L t = true ->
+  NoDup (map fst (d_nodes (derived_graph t))) /\ NoDup (map (fun x => fst (fst x)) (d_edges (derived_graph t))).
+Proof. exact derived_names_distinct. Qed.
+Print Assumptions C15_derived_names_distinct.
+
+(** derive(): returns (no exception) the derived graph, with an assignment that is total on its
+    nodes and whose factor-weight product equals the product of the rule-instance weights, in
+    every commutative semiring and for every family of factors [w] *)
+Theorem C15_derive : forall L t nx,
+  wf_dtreeb L t = true -> functionalb L = true ->
+  exists s nn en,
+    derive_model t nx = (s, None) /\
+    iso_via (ds_graph s) nn en (derived_graph t) /\
+    (forall v, In v (g_nodes (ds_graph s)) -> amem node_eqb (ds_asst s) v = true) /\
+    forall (S : Type) (o : sr_ops S) (w : elabel -> list nat -> S), sr_ring o ->
+      exists W, graph_weight o w (ds_graph s) (ds_asst s) = Some W /\ tree_weight o w t = Some W.
+Proof. exact derive_main. Qed.
+Print Assumptions C15_derive.
+
+(** the hypotheses are satisfiable by non-trivial values: a 4-instance derivation with a reused
+    rule, two different complete linearisations with different graphs, and a rejected sequence *)
+Theorem C15_examples :
+  (wf_dtreeb xL xtree = true /\ functionalb xL = true /\ tsize xtree = 4) /\
+  xcheck = true /\ xbad = true /\ xderive = true.
+Proof. exact examples_main. Qed.
+Print Assumptions C15_examples.
